@@ -219,12 +219,21 @@ def r37(ctx: Ctx) -> RuleReport:
     p = ctx.repo.func('penman._parse', '_parse')
     calls = [(c, ts) for c, ts in ctx.cg.calls_in(p)]
     order = []
+    tp = p.positional[0]
     for c, ts in calls:
         for t in ts:
-            if t.kind == 'func' and t.func.qualname in ('_parse_comments', '_parse_node'):
-                order.append((c.lineno, c.col_offset, t.func.qualname, norm(c.args[0]) if c.args else ''))
+            if t.kind == 'func' and t.func.module.name == 'penman._parse' and c.args and norm(c.args[0]) == tp:
+                kind = 'node' if t.func.qualname == '_parse_node' else ('comments' if any(
+                    isinstance(x, ast.Constant) and x.value == 'COMMENT' for x in ast.walk(t.func.node)) else None)
+                if kind:
+                    order.append((c.lineno, c.col_offset, kind, norm(c.args[0])))
+    # comments consumed inline: `while tokens.peek().type == 'COMMENT': ... tokens.next() ...`
+    for n in walk_local(p.node):
+        if isinstance(n, ast.While) and "'COMMENT'" in norm(n.test) and norm(n.test).startswith(f'{tp}.') and \
+                any(isinstance(x, ast.Call) and norm(x.func) == f'{tp}.next' for x in ast.walk(n)):
+            order.append((n.lineno, n.col_offset, 'comments', tp))
     order.sort()
-    good = [o[2] for o in order] == ['_parse_comments', '_parse_node'] and len({o[3] for o in order}) == 1
+    good = [o[2] for o in order] == ['comments', 'node'] and len({o[3] for o in order}) == 1
     rep.add('penman._parse:_parse: metadata comments are read, then the node, from the same token stream', p.loc(), 'ok' if good else 'undecided', str(order))
     tr = [c for c, ts in calls if any(t.kind == 'class' and t.cls.name == 'Tree' for t in ts)]
     good = bool(tr) and any(k.arg == 'metadata' for k in tr[0].keywords)
@@ -300,12 +309,19 @@ def r37(ctx: Ctx) -> RuleReport:
             rep.add('penman.codec:_dump_stream: dumping no graphs at all writes nothing', ds.loc(n), 'ok' if guarded else 'violation',
                     '' if guarded else f'`{norm(n)}` has no default and no StopIteration handler: dump([]) raises StopIteration where dumps([]) returns ""')
     # dumps and dump encode with the same call
-    enc = []
-    for q in ('_dumps', '_dump_stream'):
+    from ..resolve import local_callees
+    enc = {}
+    for q in ('_dumps', '_dump'):
         f = ctx.repo.func('penman.codec', q)
-        for c, ts in ctx.cg.calls_in(f):
-            if any(t.kind == 'func' and t.func.qualname == 'PENMANCodec.encode' for t in ts):
-                enc.append(sorted(k.arg for k in c.keywords))
+        sites = set()
+        for h in local_callees(ctx, f, depth=2):
+            for c, ts in ctx.cg.calls_in(h):
+                if any(t.kind == 'func' and t.func.qualname == 'PENMANCodec.encode' for t in ts):
+                    sites.add((h.fq, norm(c), tuple(sorted(k.arg for k in c.keywords))))
+        enc[q] = sites
+    same_site = bool(enc['_dumps']) and enc['_dumps'] == enc['_dump']
+    opts = {s[2] for v_ in enc.values() for s in v_}
     rep.add('penman.codec: dump and dumps encode each graph with the same options', d.loc(),
-            'ok' if len(enc) == 2 and enc[0] == enc[1] == ['compact', 'indent'] else 'undecided', str(enc))
+            'ok' if all(enc.values()) and opts == {('compact', 'indent')} else 'undecided',
+            ('one shared call site: ' if same_site else '') + str(sorted(opts)))
     return rep
